@@ -52,6 +52,78 @@ def _mod_zero_sites(f):
     return out
 
 
+_KEYMODS = ("pkey", "rsakey", "ecdsakey", "ed25519key")
+_flows = {}
+
+
+def _unguarded_dict_lookup(prog, f, n):
+    """`D[k]` (load) where the key may be absent because file content decides it: D a local dict filled while parsing
+    with k a string constant, or D a table (dotted attribute) with k a plain variable.  Discharged by a dominating
+    membership test (`k in D` true arm / `k not in D` false arm) with k not rebound in between; an enclosing handler
+    is the escape engine's business.  Returns ["KeyError"] or None."""
+    if f.module.name not in _KEYMODS or not isinstance(n.ctx, ast.Load):
+        return None
+    base, key = n.value, n.slice
+    if isinstance(base, ast.Name) and isinstance(key, ast.Constant) and isinstance(key.value, str):
+        filled = [st for st in walk_no_defs(f.node) if isinstance(st, ast.Assign) and any(unparse(t) == base.id for t in st.targets)
+                  and ((isinstance(st.value, ast.Dict) and not st.value.keys) or (M.is_call(st.value, name="dict") and not st.value.args and not st.value.keywords))]
+        if not filled:
+            return None
+    elif isinstance(base, ast.Attribute) and dotted(base) and isinstance(key, ast.Name):
+        pass
+    else:
+        return None
+    if f.qual not in _flows:
+        _flows[f.qual] = Flow(prog, f, implicit=False)
+    fl = _flows[f.qual]
+    use = [u for u in fl.cfg.node_containing(n) if u.id in fl.live]
+    if not use:
+        return None
+    kt, bt = unparse(key), unparse(base)
+
+    def member(arm_in):
+        def pred(t):
+            return (isinstance(t, ast.Compare) and len(t.ops) == 1 and isinstance(t.ops[0], ast.In if arm_in else ast.NotIn)
+                    and unparse(t.left) == kt and unparse(t.comparators[0]) == bt)
+        return pred
+    g1 = fl.edge_guard(member(True), "T")
+    g2 = fl.edge_guard(member(False), "F")
+    def gm(s_, lab, d):
+        return g1(s_, lab, d) or g2(s_, lab, d)
+    if not fl.dominated(use, guard_edge=gm):
+        # paths around the membership test may be infeasible: `if k != c and k not in D: raise` ... `if k == c: ... else:
+        # D[k]`.  Discharged when every such path establishes k == c for a constant c while the lookup is dominated by
+        # an edge establishing k != c, k not rebound in between.
+        if not isinstance(key, ast.Name):
+            return ["KeyError"]
+        at_use = fl.rd[use[0].id].get(key.id)
+
+        def cmp_const(t, op):
+            return (isinstance(t, ast.Compare) and len(t.ops) == 1 and isinstance(t.ops[0], op) and unparse(t.left) == kt and
+                    isinstance(t.comparators[0], ast.Constant))
+        consts = set(repr(c.ast.comparators[0].value) for c in fl.nodes(lambda c: c.kind == "cond" and (cmp_const(c.ast, ast.Eq) or cmp_const(c.ast, ast.NotEq))))
+        for cv in sorted(consts):
+            def is_c(t, op):
+                return cmp_const(t, op) and repr(t.comparators[0].value) == cv
+            eqT, neF = fl.edge_guard(lambda t: is_c(t, ast.Eq), "T"), fl.edge_guard(lambda t: is_c(t, ast.NotEq), "F")
+            eqF, neT = fl.edge_guard(lambda t: is_c(t, ast.Eq), "F"), fl.edge_guard(lambda t: is_c(t, ast.NotEq), "T")
+            around = fl.cfg.reach([fl.cfg.entry.id], avoid_edge=lambda s_, lab, d: gm(s_, lab, d) or eqT(s_, lab, d) or neF(s_, lab, d))
+            if use[0].id in around:
+                continue
+            if not fl.dominated(use, guard_edge=lambda s_, lab, d: eqF(s_, lab, d) or neT(s_, lab, d)):
+                continue
+            involved = fl.nodes(lambda c: c.kind == "cond" and (is_c(c.ast, ast.Eq) or is_c(c.ast, ast.NotEq) or member(True)(c.ast) or member(False)(c.ast)))
+            if all(fl.rd[c.id].get(key.id) == at_use for c in involved):
+                return None
+        return ["KeyError"]
+    if isinstance(key, ast.Name):
+        conds = fl.nodes(lambda c: c.kind == "cond" and (member(True)(c.ast) or member(False)(c.ast)))
+        at_use = fl.rd[use[0].id].get(key.id)
+        if not any(fl.rd[c.id].get(key.id) == at_use for c in conds):
+            return ["KeyError"]
+    return None
+
+
 def run(prog, chk):
     chk.explanation = (
         "Partial: that a loaded key's public and private halves agree is a value property, decided only at the one site "
@@ -62,7 +134,9 @@ def run(prog, chk):
         "and OSError from opening the file. Sources: explicit raises, a frozen catalogue of partial operations "
         "(text-mode readlines, unhexlify, cipher mode / finalize, bcrypt.kdf, nacl SigningKey, strict decodes, "
         "RSAPrivateNumbers.private_key, get_text), constant-index subscripts on data from the file without an "
-        "established length, divisions by numbers from the file - each filtered by the enclosing handlers. (R2) "
+        "established length, lookups in a dict filled from the file (constant key) or in a table under a name from the "
+        "file without a dominating membership test, divisions by numbers from the file - each filtered by the enclosing "
+        "handlers. (R2) "
         "validation is not an `assert` (it vanishes under -O and is an AssertionError otherwise). (R3) the object "
         "returned by load_der_private_key is type-checked with a raising arm before its type-specific attributes are "
         "used (a key of another type in a file with this tag). Operations outside the catalogue are assumed total.")
@@ -83,7 +157,8 @@ def run(prog, chk):
             for (x, why) in idx_cache[f.qual]:
                 out.append((x, "IndexError", why))
         return out
-    esc = Escapes(prog, cg, extra_catalog=EXTRA, extra_sites=extra_sites)
+    _flows.clear()
+    esc = Escapes(prog, cg, extra_catalog=EXTRA, extra_sites=extra_sites, dict_subscripts=lambda f, n: _unguarded_dict_lookup(prog, f, n))
     seen = {}
     skipped = {}
     nfun = 0
@@ -231,3 +306,28 @@ def run(prog, chk):
         want = {"public", "public_keys[i]", "key_data[32:]"}
         chk.ob("R4.every-public-copy-compared", "Ed25519Key._parse_signing_key_data", want <= set(stored), pf.loc,
                "compared copies: %s (the outer public key, the inner copy, the second half of the key data)" % sorted(set(stored)))
+
+    # ---- R5: no opt-out of the backend's key validation in the loading closure -----------------------------------
+    def opts_out(call):
+        return [k.arg for k in call.keywords if k.arg and k.arg.startswith("unsafe_") and not (isinstance(k.value, ast.Constant) and k.value.value in (False, None))]
+    probe = ast.parse("numbers.private_key(backend, unsafe_skip_rsa_key_validation=True)").body[0].value
+    if opts_out(probe) != ["unsafe_skip_rsa_key_validation"]:
+        raise AnalysisError("C37.R5", "the opt-out matcher does not match its own positive example")
+    nbuild = 0
+    ords = {}
+    for q in sorted(clo):
+        fq = cg.funcs.get(q)
+        if fq is None or fq.module.name not in _KEYMODS:
+            continue
+        for c in walk_no_defs(fq.node):
+            if not isinstance(c, ast.Call):
+                continue
+            last = c.func.attr if isinstance(c.func, ast.Attribute) else (c.func.id if isinstance(c.func, ast.Name) else "")
+            builds = last in ("private_key", "public_key", "load_der_private_key", "load_pem_private_key", "load_ssh_private_key", "derive_private_key")
+            bad = opts_out(c)
+            if builds:
+                nbuild += 1
+            if builds or bad:
+                chk.ob("R5.backend-validation-not-switched-off", "%s:%s#%d" % (fq.qual, last, ords.setdefault((fq.qual, last), []).append(1) or len(ords[(fq.qual, last)]) - 1), not bad, "%s:%d" % (fq.module.path, c.lineno),
+                       "%s(...)%s" % (unparse(c.func)[-50:], "" if not bad else " passes %s: inconsistent key material from the file is accepted instead of raising" % bad))
+    chk.floor("R5", "backend key constructions in the loading closure", nbuild, 4)
